@@ -1519,3 +1519,130 @@ Section TwoReadsAccept.
   Proof. intros H. apply two_reads_matches_safe; [exact Hs|]. now apply two_reads_accepted. Qed.
 End TwoReadsAccept.
 
+(* ---- any number of liveness reads ------------------------------------------------------ *)
+(* a liveness snapshot: (enabled, connected) *)
+Definition snapshot := ((N -> bool) * (N -> bool))%type.
+
+Lemma dedup_aux_sub kept l x : In x (dedup_aux kept l) -> In x l.
+Proof.
+  revert kept. induction l as [|y r IH]; intros kept; [intros []|]. cbn [dedup_aux].
+  destruct (existsb (target_cmp y) kept).
+  - intros H. right. eapply IH; exact H.
+  - intros [->|H]; [now left|]. right. eapply IH; exact H.
+Qed.
+
+Lemma dedup_aux_nodes shf kept l :
+  Forall (consistent shf) kept -> Forall (consistent shf) l ->
+  NoDup (map fst (dedup_aux kept l)) /\
+  (forall x, In x (dedup_aux kept l) -> ~ In (fst x) (map fst kept)).
+Proof.
+  intros Hk Hl. revert kept Hk. induction Hl as [|y r Hy Hr IH]; intros kept Hk.
+  - split; [constructor|intros x []].
+  - cbn [dedup_aux]. rewrite (existsb_cmp shf y kept Hy Hk).
+    destruct (mem (fst y) (map fst kept)) eqn:Em.
+    + apply IH; assumption.
+    + apply mem_false in Em. destruct (IH (y :: kept) (Forall_cons _ Hy Hk)) as [H1 H2]. split.
+      * cbn [map]. constructor; [|assumption]. intros Hin. apply in_map_iff in Hin. destruct Hin as (z & Ez & Hz).
+        apply (H2 z Hz). cbn [map]. left. now symmetry.
+      * intros x [->|Hx]; [assumption|]. intros Hin. apply (H2 x Hx). cbn [map]. now right.
+Qed.
+
+Section Reads.
+  Variables (dcf rackf : N -> option N) (g : ring N) (keyspaces : list (N * strategy)).
+  Variables (shf : N -> N) (pol : policy) (rq : request).
+  Hypothesis Hs : sorted_weak g.
+  Hypothesis Hk : forall k s, ks_lookup keyspaces k = Some s -> nts_keys_ok s.
+  Variables (cho : nat -> nat -> nat) (shuf : nat -> list N -> list N).
+  Hypothesis Hshuf : forall site l, Permutation (shuf site l) l.
+  Hypothesis Hcho : forall site len, (0 < len)%nat -> (cho site len < len)%nat.
+
+  (* what the fallback chain (before unique_by) offers under one snapshot *)
+  Definition chain_under (s : snapshot) : list target :=
+    fb_replicas dcf rackf g keyspaces (fst s) (snd s) shf pol rq shuf ++
+    fb_nodes dcf rackf g (fst s) (snd s) pol rq cho.
+
+  (* one Plan whose first target is picked under [s0] and whose fallback iterator pulls each of
+     its candidates under a snapshot of its own: [reads] = the candidates that passed their
+     liveness test, in the order pulled, each with the snapshot it was tested under.  unique_by
+     runs over everything pulled; Plan filters the picked target out by exact equality. *)
+  Definition reads_ok (reads : list (target * snapshot)) : Prop :=
+    Forall (fun r => In (fst r) (chain_under (snd r))) reads.
+  Definition plan_reads (s0 : snapshot) (reads : list (target * snapshot)) : option (list target) :=
+    match pick dcf rackf g keyspaces (fst s0) (snd s0) shf pol rq cho with
+    | Some p => Some (p :: filter (fun x => negb (target_eqb x p)) (dedup (map fst reads)))
+    | None => None
+    end.
+
+  Lemma chain_segs s : chain_under s =
+    map (with_shard shf) (concat (seg_replicas dcf rackf g keyspaces (fst s) (snd s) pol rq shuf)) ++
+    map no_shard (concat (seg_nodes dcf rackf g (fst s) (snd s) pol rq cho)).
+  Proof.
+    unfold chain_under. f_equal.
+    - unfold fb_replicas, seg_replicas. destruct (token_strategy keyspaces pol rq) as [[t st]|]; [|reflexivity].
+      cbn [concat]. rewrite app_nil_r. reflexivity.
+    - unfold fb_nodes, seg_nodes. cbn [concat]. rewrite app_nil_r. reflexivity.
+  Qed.
+
+  Lemma chain_ok s x : In x (chain_under s) ->
+    fst s (fst x) = true /\ permitted dcf g pol rq (fst x) = true /\ consistent shf x.
+  Proof.
+    intros Hx.
+    assert (Hc : consistent shf x /\ In (fst x) (map fst (fallback dcf rackf g keyspaces (fst s) (snd s) shf pol rq cho shuf))).
+    { rewrite fallback_nodes, uniq_In, concat_app, in_app_iff. rewrite chain_segs in Hx.
+      apply in_app_or in Hx. destruct Hx as [Hx|Hx]; apply in_map_iff in Hx; destruct Hx as (n & <- & Hn).
+      - split; [right; reflexivity|left; exact Hn].
+      - split; [left; reflexivity|right; exact Hn]. }
+    destruct Hc as [Hc Hin].
+    pose proof (fallback_matches dcf rackf g keyspaces (fst s) (snd s) shf pol rq Hs Hk cho shuf Hshuf) as Hf.
+    pose proof (plan_matches_sound dcf rackf g keyspaces (fst s) (snd s) shf pol rq _ Hf) as (_ & F2 & F3 & _).
+    pose proof (plan_matches_ring dcf rackf g keyspaces (fst s) (snd s) shf pol rq _ Hf) as F4.
+    split; [now apply F2|]. split; [|exact Hc].
+    apply permitted_spec. split; [now apply F4|]. intros d Hd Hfo. now apply (F3 d Hd Hfo).
+  Qed.
+
+  (* whatever the number of liveness changes and wherever they fall: the first target is an
+     acceptable pick for the snapshot pick() saw, was enabled then and is permitted; every later
+     target passed its test under the snapshot it was pulled in (enabled then) and is permitted;
+     the later targets name no node twice; the picked node is named again at most once and only
+     with another annotation (shard / no shard) than the picked target *)
+  Theorem plan_reads_safe s0 reads p tl :
+    reads_ok reads ->
+    plan_reads s0 reads = Some (p :: tl) ->
+    pick_matches dcf rackf g keyspaces (fst s0) (snd s0) pol rq (Some (fst p)) = true /\
+    (fst s0 (fst p) = true /\ permitted dcf g pol rq (fst p) = true) /\
+    (forall x, In x tl -> exists s, In (x, s) reads /\ fst s (fst x) = true /\ permitted dcf g pol rq (fst x) = true) /\
+    NoDup (map fst tl) /\
+    (forall x, In x tl -> fst x = fst p -> snd x <> snd p).
+  Proof.
+    intros Hr. unfold plan_reads.
+    pose proof (pick_matches_model dcf rackf g keyspaces (fst s0) (snd s0) shf pol rq Hs Hk cho shuf Hshuf Hcho) as Hp.
+    destruct (pick dcf rackf g keyspaces (fst s0) (snd s0) shf pol rq cho) as [q|]; [|discriminate].
+    intros [= <- <-]. cbn [option_map] in Hp. split; [assumption|].
+    assert (Hcons : Forall (consistent shf) (map fst reads)).
+    { apply Forall_forall. intros x Hx. apply in_map_iff in Hx. destruct Hx as ([y s] & <- & Hy).
+      unfold reads_ok in Hr. rewrite Forall_forall in Hr. specialize (Hr _ Hy). cbn [fst snd] in *. now apply chain_ok in Hr. }
+    destruct (dedup_aux_nodes shf [] (map fst reads) (Forall_nil _) Hcons) as [Hnd _]. fold (dedup (map fst reads)) in Hnd.
+    split; [|split; [|split]].
+    - destruct (pick_matches_sound dcf rackf g keyspaces (fst s0) (snd s0) shf pol rq (fst q) Hp) as (H8 & _).
+      exact (grp_lt8_ok dcf rackf g keyspaces (fst s0) (snd s0) shf pol rq Hs (fst q) H8).
+    - intros x Hx. apply filter_In in Hx. destruct Hx as [Hx _]. apply dedup_aux_sub in Hx.
+      apply in_map_iff in Hx. destruct Hx as ([y s] & Ey & Hy). cbn [fst] in Ey. subst y. exists s. split; [assumption|].
+      unfold reads_ok in Hr. rewrite Forall_forall in Hr. specialize (Hr _ Hy). cbn [fst snd] in Hr.
+      apply chain_ok in Hr. tauto.
+    - apply NoDup_map_filter. exact Hnd.
+    - intros x Hx Ef Es. apply filter_In in Hx. destruct Hx as [_ Hx]. apply negb_true_iff in Hx.
+      unfold target_eqb in Hx. rewrite Ef, Es, N.eqb_refl in Hx. cbn [andb] in Hx.
+      assert (oeqb (snd q) (snd q) = true) by now apply oeqb_eq. congruence.
+  Qed.
+
+  (* the two-read plan is the instance in which every candidate is pulled under the second snapshot *)
+  Lemma plan_two_reads_as_reads s0 s1 :
+    plan_two_reads dcf rackf g keyspaces (fst s0) (snd s0) (fst s1) (snd s1) shf pol rq cho shuf =
+    plan_reads s0 (map (fun x => (x, s1)) (chain_under s1)) /\
+    reads_ok (map (fun x => (x, s1)) (chain_under s1)).
+  Proof.
+    split.
+    - unfold plan_two_reads, plan_reads, fallback. rewrite map_map. cbn [fst]. now rewrite map_id.
+    - unfold reads_ok. apply Forall_forall. intros r Hr. apply in_map_iff in Hr. destruct Hr as (x & <- & Hx). exact Hx.
+  Qed.
+End Reads.
